@@ -246,6 +246,23 @@ def run_case(spec):
                     if cand:
                         M.add(S, 'addr', rng.choice(cand), v)
                         pattern.append('Ahere')
+            # inspection between stops must not change where the program stops next: select frames, look at the stack,
+            # read variables, disassemble (the user is entitled to any of these before continuing)
+            if rng.random() < 0.35:
+                for _ in range(rng.randint(1, 3)):
+                    q = rng.random()
+                    if q < 0.4:
+                        S.cmd('frame', num=rng.choice([0, 1, 1, 2, 3]), mon=False)
+                        pattern.append('F')
+                    elif q < 0.6:
+                        S.cmd('backtrace', mon=False)
+                    elif q < 0.8:
+                        S.cmd('locals', mon=False)
+                    elif q < 0.9:
+                        S.cmd('frame_info', mon=False)
+                    else:
+                        S.cmd('disasm', mon=False)
+                v.count('inspections_between_stops')
             r = S.cmd('cont')
         v.case(signature=('c01', idx, tuple(sorted(cfg.items())), tuple(sorted(kinds)), min(stops, 8), tuple(pattern[:6])),
                sample={'program': os.path.basename(prep.b.src), 'cfg': cfg, 'stops': stops, 'adds': M.n_add,
